@@ -286,7 +286,7 @@ def gen_feature(rng, maxpos, for_gff=False, fid=None):
 
 def gen_annotation(rng, maxpos, for_gff=False):
     feats = []
-    for i in range(rng.randint(1, 5)):
+    for i in range(rng.choice([0, 1, 1, 2, 3, 4, 5])):  # an annotation without any feature is a feature set too
         feats.append(gen_feature(rng, maxpos, for_gff, fid=f"id{i}"))
     return feats
 
